@@ -18,7 +18,7 @@ TESTS=$(grep -c "100% tests passed" $OUT/tests_with.log)
 echo "tests with change: $(tail -3 $OUT/tests_with.log | head -1)"
 rm -rf _build
 cp demo/patch.diff demo/demo.cpp demo/run.sh $OUT/ 2>/dev/null
-cp demo/NOTES.md $OUT/NOTES.md 2>/dev/null
+cp demo/NOTES.md $OUT/NOTES.md 2>/dev/null || cp NOTES.md $OUT/NOTES.md 2>/dev/null
 # run the checks against the change in /repo
 cd /repo && git apply $OUT/patch.diff || { echo "patch does not apply to /repo"; exit 2; }
 RES=""
